@@ -390,6 +390,10 @@ func (r *verifRig) interest(in verifInterestIn, check string) {
 		}
 		r.pend = append(r.pend, mine)
 	}
+	if retransmission {
+		// the forwarder records the previous nonce of a refreshed in-record on the dead nonce list
+		r.sentNonces = append(r.sentNonces, verifSentNonce{in.name, mine.nonce})
+	}
 	mine.nonce = in.nonce
 	mine.expiry = now.Add(in.lifetime)
 	if maybeDead {
@@ -457,10 +461,18 @@ func (r *verifRig) interest(in verifInterestIn, check string) {
 			suppressed = true
 		}
 	}
+	// an earlier Interest of this entry whose own lifetime is over may have left an out-record behind (the entry
+	// lives as long as its longest-lived record): suppression then still applies, but the model cannot know
+	maybeSuppressed := false
+	for _, p := range r.pend {
+		if !p.live && p.hasOut && r.sameEntry(p, in.name, in.cbp, in.mbf) && p.outNonce != in.nonce && p.lastOutAt.Add(500*time.Millisecond).After(now) {
+			maybeSuppressed = true
+		}
+	}
 	if check == "C02" {
 		if suppressed {
 			verifAssert(nInterests == 0, "C02/retransmission-inside-suppression-interval-is-aggregated")
-		} else if first && len(usable) > 0 && !maybeDead {
+		} else if first && len(usable) > 0 && !maybeDead && !maybeSuppressed {
 			verifAssert(nInterests >= 1, "C02/first-interest-with-usable-next-hop-is-forwarded")
 		}
 		if nInterests > 0 && !r.multicast {
